@@ -237,3 +237,15 @@ package ecs
 //@   ensures  index-kept: forall i uint32 :: __trigger(w.storage.entities[i].row) && (uint64(i) < uint64(old(len(w.storage.entities))) && entityID(i) != result0.id ==> w.storage.entities[i] == old(w.storage.entities[i]))
 //@   ensures  count: *epAlive(&w.storage.entityPool) == old(*epAlive(&w.storage.entityPool)) + 1
 //@   ensures  mask: result1 != nil
+
+// Map.Set (C20 "panic on exactly the same calls", C10): in the release build the missing-component
+// misuse is rejected by the nil column fault, in the debug build by checkHasComponent; either way
+// a normal return means the entity is alive and has the component.
+//@ func (*Map[T]).Set
+//@   serves C20 C10
+//@   typeparams T=uintptr
+//@   maypanic
+//@   mayfault
+//@   requires m.world != nil && m.storage != nil && poolInv(&m.world.storage.entityPool) && uint64(entity.id) < uint64(len(m.world.storage.entityPool.entities))
+//@   requires m.world.storage.observers != nil && obsShape(m.world.storage.observers)
+//@   ensures  present: alive(&m.world.storage.entityPool, entity) && m.storage.columns[m.world.storage.entities[entity.id].table] != nil
